@@ -21,6 +21,16 @@ CHECKS = {
         note="Trusted: Lean kernel; model L.parseTS / V.visitTs / V.addPrefix validated per case; spec T.denote/T.printSpec; recogniser T.parseTsTy; syn.",
         technique="Lean 4 theorems (L1 string round trip by mutual structural induction, L2 printer equality) + differential correspondence",
     ),
+    "C10": dict(
+        text="Proof that the plain renderer and the schema builder describe the same shape for every type structure (any depth) without sets and Result, "
+             "that the declaration-side shape is the one read off the C05 denotation, and that every JSON value of the declared type is accepted by the schema "
+             "(Result included); sets are shown to be rejected entirely (K10a) and Result to differ in shape (K10b) by kernel-checked statements; tied to the code by "
+             "reading the five real texts per type (both modes, parameter and field site) into shapes with two parsers, exhaustively to depth 2/3, and by generating "
+             "every random project in both modes and comparing the two types.ts item by item.",
+        design_ref="DESIGN.md section 7.C10",
+        note="Trusted: Lean kernel; Shape vocabulary and the two readers (parseTsTy+shapeOfTs, parseZod+shapeOfZ), run on every real text; Acc as the meaning of structural acceptance.",
+        technique="Lean 4 theorems (mutual structural induction over TypeStructure; inductive acceptance relation) + differential correspondence in both output modes",
+    ),
     "C04": dict(
         text="Unbounded proof that on every snake_case identifier the tool's default parameter key (serde camelCase field rule) equals the key "
              "Tauri's macro expects (heck lowerCamel), plus the precedence rename > command rename_all > configured default; tied to the code by "
